@@ -31,7 +31,7 @@
 (* leading dims x destination kind x coordinate type x method x k x power,  *)
 (* each with its expected source kind and output dims.                      *)
 (***************************************************************************)
-EXTENDS Naturals, Sequences, FiniteSets, TLC
+EXTENDS Integers, Sequences, FiniteSets, TLC
 
 CONSTANTS SizeSet,     \* element counts to range over (kind inference)
           GenMatrix,   \* BOOLEAN: also generate the call matrix
@@ -88,6 +88,21 @@ DimsLaw == \A rt \in Kinds :
               /\ SubSeq(o, 1, Len(o) - 1) = c.lead
               /\ SourceKind(o) = rt
               /\ (rt = c.kind => o = Dims)
+
+(* ---- the dtype of the remapped variable ---------------------------------------------------- *)
+\* nearest neighbour hands back source values: same dtype, exactly a source value.
+\* inverse distance weighting hands back a convex combination: whatever dtype the result has, its
+\* value -- read in THAT dtype -- lies between the minimum and maximum of the k sources, and a constant
+\* field stays that constant (for integer and boolean results: exactly).
+DTypes      == { "float64", "float32", "int64", "int32", "int8", "uint8", "bool" }
+Integral(d) == d \in { "int64", "int32", "int8", "uint8", "bool" }
+\* constant fields to remap (several: whether a weighted sum of equal values rounds below the value
+\* depends on the weights)
+ConstsOf(d) == CASE d = "bool" -> {1} [] d = "uint8" -> {7, 100, 3} [] OTHER -> {-7, 7, 100, 3}
+DTypeCases  == { [ dtype |-> d, meth |-> m, level |-> l, consts |-> ConstsOf(d), exact |-> Integral(d) ] :
+                   d \in DTypes, m \in { "nn", "idw2", "idw3" }, l \in { "da", "ds" } }
+EmitD == (c.stage = 0 /\ c.kind = "nodes" /\ c.lead = <<>> /\ \A k \in Kinds : c.sz[k] = CHOOSE x \in SizeSet : \A y \in SizeSet : x <= y)
+            => PrintT(<<"D", DTypeCases>>)
 
 Emit == c.stage = 1 =>
           PrintT(<<"C", [ kind |-> c.kind, lead |-> c.lead, remapTo |-> c.remapTo, coord |-> c.coord,
